@@ -1,0 +1,45 @@
+//go:build verif
+
+package evaluator
+
+import "sync/atomic"
+
+// VerifFuel is the panic value raised when the evaluation budget set by
+// VerifSetFuel is exhausted (verification builds only).
+type VerifFuel struct{ Why string }
+
+var (
+	verifSteps    int64
+	verifMaxSteps int64
+	verifDepth    int64
+	verifMaxDepth int64
+)
+
+// VerifSetFuel (re)sets the evaluation budget. 0 means unlimited.
+func VerifSetFuel(steps, depth int64) {
+	atomic.StoreInt64(&verifSteps, 0)
+	atomic.StoreInt64(&verifDepth, 0)
+	atomic.StoreInt64(&verifMaxSteps, steps)
+	atomic.StoreInt64(&verifMaxDepth, depth)
+}
+
+// VerifStepsUsed reports the number of Eval steps since the last VerifSetFuel.
+func VerifStepsUsed() int64 { return atomic.LoadInt64(&verifSteps) }
+
+func verifStep() {
+	n := atomic.AddInt64(&verifSteps, 1)
+	if m := atomic.LoadInt64(&verifMaxSteps); m > 0 && n > m {
+		panic(VerifFuel{Why: "steps"})
+	}
+}
+
+func verifCall() func() {
+	d := atomic.AddInt64(&verifDepth, 1)
+	if m := atomic.LoadInt64(&verifMaxDepth); m > 0 && d > m {
+		atomic.AddInt64(&verifDepth, -1)
+		panic(VerifFuel{Why: "depth"})
+	}
+	return verifReturn
+}
+
+func verifReturn() { atomic.AddInt64(&verifDepth, -1) }
